@@ -25,6 +25,37 @@ pub trait Engine: Sync + Send {
     fn eval(&self, bytes: &[u8], trace: bool) -> Eval;
 }
 
+/// C20, second sentence: "a child that stays Pending forever never prevents
+/// its siblings from being polled when they are woken, from running to
+/// completion, or from having their results delivered". In a case that has a
+/// never-completing child, an unexplained Pending at quiescence (oracle P) is
+/// exactly that, so it counts for C20 as well as for C01.
+pub struct C20Fold(pub Arc<dyn Engine>);
+
+impl Engine for C20Fold {
+    fn name(&self) -> &'static str {
+        self.0.name()
+    }
+    fn eval(&self, bytes: &[u8], trace: bool) -> Eval {
+        let mut ev = self.0.eval(bytes, trace);
+        if ev.labels.contains(&"never_child") {
+            let extra: Vec<Violation> = ev
+                .violations
+                .iter()
+                .filter(|v| {
+                    use crate::world::Family::*;
+                    // chain is sequential by design and zip takes part in the
+                    // first sentence only
+                    v.oracle == crate::world::Oracle::P && matches!(v.fam, Some(Join | TryJoin | Race | RaceOk | Merge | FutGroup | StrGroup))
+                })
+                .map(|v| Violation { oracle: crate::world::Oracle::Conc, msg: format!("[P, with a never-completing child present] {}", v.msg), fam: v.fam })
+                .collect();
+            ev.violations.extend(extra);
+        }
+        ev
+    }
+}
+
 /// Several engines behind one property: the first byte of a case selects the
 /// engine (by weight), the rest is that engine's input.
 pub struct MultiEngine {
